@@ -218,6 +218,18 @@ def interpret_statements(prog: Any, module: Any, stmts: Iterable[ast.stmt], extr
     env.update(extra or {})
     it = Interp(env, max_steps=20000)
     skipped: dict[str, str] = {}
+    # the module's own functions (a grammar may be built by a helper) and its constants
+    stmts = list(stmts)
+    for st in module.tree.body:
+        if isinstance(st, ast.FunctionDef) and st.name not in it.env and st not in stmts:
+            it.env[st.name] = it._make_function(st)
+        elif isinstance(st, (ast.Assign, ast.AnnAssign)) and st not in stmts and getattr(st, "value", None) is not None:
+            tg = st.targets[0] if isinstance(st, ast.Assign) else st.target
+            if isinstance(tg, ast.Name) and tg.id not in it.env:
+                try:
+                    it.run([st])
+                except AnalysisError:
+                    pass
     for st in stmts:
         if isinstance(st, (ast.Import, ast.ImportFrom, ast.ClassDef, ast.Return)):
             continue
